@@ -773,13 +773,16 @@ except ImportError:  # pragma: no cover - exercised by installs without [http]
 #: dataclasses, ``pa.RecordBatch``, ``pa.Schema``, lists, dicts, enums --
 #: falls back to Arrow, which is what those are for.
 #:
-#: ``float`` accepts ``int`` because msgpack and Arrow both widen it; ``int``
-#: accepts ``bool`` because ``bool`` is a subclass of ``int``.
+#: ``float`` claims only real floats: msgpack packs a Python ``int`` (or
+#: ``bool``) as an integer and hands it back as one, whereas the Arrow codec
+#: returns ``3.0`` -- so an int held in a float field is left to Arrow, keeping
+#: both codecs' results identical.  ``int`` accepts ``bool`` because ``bool``
+#: is a subclass of ``int``.
 _COMPACT_TYPES: dict[object, type | tuple[type, ...]] = {
     bytes: (bytes, bytearray, memoryview),
     str: str,
     int: int,
-    float: (float, int),
+    float: float,
     bool: bool,
 }
 
